@@ -152,6 +152,23 @@ pub fn sx_plans(m: &mir::Mir) -> String {
     sl(&out)
 }
 
+/// per top-level struct: name, StructInner::size(), per field (name, StructField::size())
+pub fn sx_sizes(m: &mir::Mir) -> String {
+    let mut out = Vec::new();
+    for n in &m.nodes {
+        if let mir::Node::Struct(s) = n.as_ref() {
+            let inner: &StructInner = s.as_ref();
+            let r = catch_unwind(AssertUnwindSafe(|| {
+                let fs: Vec<String> =
+                    inner.fields.iter().map(|f| sl(&[ss(&f.ident.ident), sa(f.size() as i128)])).collect();
+                sl(&[ss(&inner.ident.ident), sa(inner.size() as i128), sl(&fs)])
+            }));
+            out.push(r.unwrap_or_else(|_| sl(&[ss(&inner.ident.ident), sa(-1)])));
+        }
+    }
+    sl(&out)
+}
+
 // ---------------------------------------------------------------- cmp table
 
 fn id(s: &str) -> Ident {
